@@ -84,7 +84,24 @@ pub fn run_c08(a: &Args) {
         for vi in 0..variants {
             let mut sc = base.clone();
             let class;
-            match vi % 6 {
+            match if vi % 11 == 7 { 6 } else { vi % 6 } {
+                6 => { // coalesced: every run of consecutive frames goes out in one write (a new run starts at the
+                       // Encryption Response, which needs the server's token first)
+                    class = "coalesced";
+                    let mut steps: Vec<Step> = vec![];
+                    let mut run: Vec<Step> = vec![];
+                    for st in &base.steps {
+                        if is_frame_step(st) && !matches!(st, Step::KeepAlive(_)) {
+                            if matches!(st, Step::EncResp(_)) && !run.is_empty() { steps.push(Step::Batch(std::mem::take(&mut run))); }
+                            run.push(st.clone());
+                        } else {
+                            if !run.is_empty() { steps.push(Step::Batch(std::mem::take(&mut run))); }
+                            steps.push(st.clone());
+                        }
+                    }
+                    if !run.is_empty() { steps.push(Step::Batch(run)); }
+                    sc.steps = steps;
+                }
                 0 => { // every frame split at one random offset
                     class = "split-each";
                     for &i in &frame_idx { let c = rng.range(1, 12) as usize; sc.steps[i] = Step::Seg { inner: Box::new(base.steps[i].clone()), cuts: vec![c], events: vec![] }; }
@@ -120,7 +137,9 @@ pub fn run_c08(a: &Args) {
                     let mut p2 = plan.clone();
                     let k = rng.range(1, 6) as usize;
                     p2.pre_info = vec![];
-                    p2.routing = match rng.below(3) {
+                    p2.routing = match rng.below(4) {
+                        // the Keep Alive is cut short by the completion that follows, is never answered, and the next tick is due
+                        3 => vec![Step::AdapterDone, Step::Throttle(vec![WAns::Accept(k), WAns::Pending, WAns::Pending, WAns::Pending]), Step::Tick, Step::AdapterDone, Step::Throttle(vec![]), Step::Tick, Step::AdapterDone],
                         0 => vec![Step::Throttle(vec![WAns::Accept(k), WAns::Pending, WAns::Pending, WAns::Pending]), Step::Tick, Step::AdapterDone, Step::Throttle(vec![]), Step::AdapterDone, Step::AdapterDone],
                         1 => vec![Step::AdapterDone, Step::Throttle(vec![WAns::Accept(k), WAns::Pending, WAns::Pending, WAns::Pending]), Step::Tick, Step::AdapterDone, Step::AdapterDone],
                         _ => vec![Step::AdapterDone, Step::AdapterDone, Step::Throttle(vec![WAns::Accept(k), WAns::Pending, WAns::Accept(1), WAns::Pending, WAns::Pending]), Step::Tick, Step::AdapterDone],
@@ -132,7 +151,7 @@ pub fn run_c08(a: &Args) {
             let mut why = vec![];
             // reference for the variants that move an event in front of a frame: the unsegmented run
             // with that frame-level order
-            let cref = if vi % 6 == 3 || vi % 6 == 4 {
+            let cref = if vi % 11 == 7 { c0.clone() } else if vi % 6 == 3 || vi % 6 == 4 {
                 let mut r = sc.clone();
                 r.steps = sc.steps.iter().flat_map(|s| match s { Step::Seg { inner, events, .. } => { let mut v: Vec<Step> = events.iter().map(|e| e.1.clone()).collect(); v.push((**inner).clone()); v } other => vec![other.clone()] }).collect();
                 let ro = exec(&r);
@@ -214,7 +233,16 @@ pub fn run_c04(a: &Args) {
             12 => { class = "random-bytes-after-switch".into(); steps = legal.iter().take_while(|s| !matches!(s, Step::Frame(q) if q == &b::login_ack())).cloned().collect(); let k = rng.range(1, 300) as usize; steps.push(raw(rng.bytes(k))); steps.push(Step::Eof); }
             13 => { class = "enum-out-of-range".into(); steps = legal[..legal.len().min(at + 1)].to_vec(); steps.push(Step::Frame(b::resource_pack_response(1, *rng.pick(&[8, -1, i32::MAX])))); steps.push(Step::Frame(b::handshake(1, b"x", 1, *rng.pick(&[0, 4, -1])))); }
             14 => { class = "eof-anywhere".into(); steps = legal[..rng.below(legal.len() as u64 + 1) as usize].to_vec(); steps.push(Step::Eof); steps.push(Step::Tick); }
-            _ => { class = "legal".into(); steps = legal.clone(); }
+            _ => {
+                class = "legal".into(); steps = legal.clone();
+                // half of the legal runs end in a message from the REAL built-in localisation, looked up for whatever
+                // locale text the client reported (multi-byte characters around the separators included)
+                if rng.chance(1, 2) {
+                    let tables = ["en", "en_us", "é", "é_FR", "日本"].iter().filter(|_| rng.chance(2, 3)).map(|l| (l.to_string(), vec![("disconnect_no_target".to_string(), format!("kein Ziel [{l}] ✓")), ("disconnect_timeout".to_string(), format!("Zeitüberschreitung [{l}]"))])).collect();
+                    sc.real_localization = Some((rng.pick(&["en_us", "é_FR", "zz"]).to_string(), tables));
+                    sc.verdicts.select = Ok(None);
+                }
+            }
         }
         sc.steps = steps;
         let o = exec(&sc);
